@@ -73,7 +73,12 @@ def run_cycle_job(prog, job):
         if o.kind == 'return':
             check_obligations(eng, list(o.state.pc), [('C06.live_id_not_removed', z3.Not(zb(o.value)))], prefixes, res, lambda m, failed: viol(A, m, failed, 'cycle_' + how, N, {'x': x, 'g': g}))
     for o in call_all(eng, st, rm, [idx, aref]):
-        if o.kind != 'return': continue
+        res['paths'] += 1
+        if o.kind != 'return':
+            # removing a live node is a valid call: if it does not complete, the id never becomes a removed id in an orderly way
+            check_obligations(eng, list(o.state.pc), [('C06.removal_of_a_live_node_completes', F_)], prefixes, res,
+                              lambda m, failed: viol(A, m, failed, 'cycle_' + how, N, {'x': x, 'g': g}))
+            continue
         s1 = o.state
         assert_removed(s1, 'after_' + how, {'allocs': 0})
         work = [(s1, 0)]
@@ -223,6 +228,7 @@ def confirm(prop, v):
             for k in range(n0, len(lines)):
                 r = res.get(k)
                 if lines[k].startswith('is_removed') and (r is None or r[0] != 'OK' or r[1].strip() != 'true'): bad.append((lines[k], r))
+                if k == n0 and (r is None or r[0] != 'OK'): bad.append((lines[k], r))          # the removal of the live node itself
                 if lines[k].startswith('new ') and r and r[0] == 'OK':
                     pid = replay.parse_id(r[1])
                     if pid and pid[0] == xs and pid[1] <= cur: bad.append((lines[k], r))
